@@ -70,7 +70,7 @@ register(Contract(
             'exits': 'exits == entry.exits | {self.graph[inside].jump_targets[k] for k in range(_i)'
                      ' if self.graph[inside].jump_targets[k] not in subgraph}'}),
     },
-    properties=['C13', 'C12'],
+    properties=['C13', 'C12'], gen='graph_and_subset',
 ))
 
 register(Contract(
@@ -96,5 +96,5 @@ register(Contract(
             'headers': 'headers == {t for o in _done for t in self.graph[o]._jump_targets if t in subgraph}',
             'entries': 'entries == {o for o in _done if any(t in subgraph for t in self.graph[o]._jump_targets)}'}),
     },
-    properties=['C13', 'C12'],
+    properties=['C13', 'C12'], gen='graph_and_subset',
 ))
